@@ -111,6 +111,17 @@ struct ContextData {
     pub next_state_offset: Option<u64>,
     pub push_sum: u64,
 }
+/// State-cursor bookkeeping of one `if`/`match`: every arm owns its own state cells, laid out
+/// one after the other in evaluation order, and only the arm that runs moves the cursor.
+#[derive(Debug)]
+struct StateBranch {
+    /// Offset that was still pending (not yet pushed) when the branch was reached.
+    pending: u64,
+    /// `push_sum` of the enclosing code, restored after the merge.
+    saved_push_sum: u64,
+    /// Total state size of the arms evaluated so far.
+    arms_size: u64,
+}
 #[derive(Debug, Default, Clone)]
 struct DefaultArgData {
     pub name: Symbol,
@@ -1735,6 +1746,42 @@ impl Context {
                 .push((Arc::new(Value::None), Instruction::PushStateOffset(offset)));
         }
     }
+    /// Call right after the `JmpIf`/`Switch` instruction, before evaluating the first arm.
+    fn begin_state_branch(&mut self) -> StateBranch {
+        let data = self.get_ctxdata();
+        StateBranch {
+            pending: data.next_state_offset.take().unwrap_or(0),
+            saved_push_sum: data.push_sum,
+            arms_size: 0,
+        }
+    }
+    /// The cells of an arm start behind those of the earlier arms.
+    fn begin_state_arm(&mut self, branch: &StateBranch) {
+        let offset = branch.pending + branch.arms_size;
+        let data = self.get_ctxdata();
+        data.push_sum = 0;
+        data.next_state_offset = (offset > 0).then_some(offset);
+    }
+    /// Call at the end of the arm's last basic block: an arm gives back what it pushed, so that
+    /// every arm leaves the cursor where the branch found it.
+    fn end_state_arm(&mut self, branch: &mut StateBranch, arm_states: &[StateSkeleton]) {
+        let data = self.get_ctxdata();
+        data.next_state_offset = None;
+        let pushed = std::mem::take(&mut data.push_sum);
+        if pushed > 0 {
+            self.get_current_basicblock()
+                .0
+                .push((Arc::new(Value::None), Instruction::PopStateOffset(pushed)));
+        }
+        branch.arms_size += arm_states.iter().map(|s| s.total_size()).sum::<u64>();
+    }
+    /// Call in the merge block: the next cell lies behind the cells of all arms.
+    fn end_state_branch(&mut self, branch: StateBranch) {
+        let offset = branch.pending + branch.arms_size;
+        let data = self.get_ctxdata();
+        data.push_sum = branch.saved_push_sum;
+        data.next_state_offset = (offset > 0).then_some(offset);
+    }
     fn emit_fncall(
         &mut self,
         idx: u64,
@@ -3055,37 +3102,22 @@ impl Context {
                 // the block are not determined yet. These 0s will be
                 // overwritten later.
                 let _ = self.push_inst(Instruction::JmpIf(c, 0, 0, 0));
-                //todo: state offset for branches
+                // Every arm gets its own state cells: cond ++ then ++ else.
+                let mut branch = self.begin_state_branch();
                 //insert then block
                 let then_bidx = cond_bidx + 1;
+                self.begin_state_arm(&branch);
                 let (t, _, state_t) = self.eval_block(Some(*then));
+                self.end_state_arm(&mut branch, &state_t);
                 //jmp to ret is inserted in bytecodegen
                 //insert else block
                 let else_bidx = self.get_ctxdata().current_bb + 1;
+                self.begin_state_arm(&branch);
                 let (e, _, state_e) = self.eval_block(*else_);
-                let then_size = state_t.iter().map(|s| s.total_size()).sum::<u64>();
-                let else_size = state_e.iter().map(|s| s.total_size()).sum::<u64>();
-                let branch_state = match then_size.cmp(&else_size) {
-                    std::cmp::Ordering::Greater => {
-                        let elseb = self.get_current_fn().body.get_mut(else_bidx).unwrap();
-                        elseb.0.push((
-                            Arc::new(Value::None),
-                            Instruction::PushStateOffset(then_size - else_size),
-                        ));
-                        state_t.clone()
-                    }
-                    std::cmp::Ordering::Less => {
-                        let thenb = self.get_current_fn().body.get_mut(then_bidx).unwrap();
-                        thenb.0.push((
-                            Arc::new(Value::None),
-                            Instruction::PushStateOffset(else_size - then_size),
-                        ));
-                        state_e.clone()
-                    }
-                    std::cmp::Ordering::Equal => state_t.clone(),
-                };
+                self.end_state_arm(&mut branch, &state_e);
                 //insert return block
                 self.add_new_basicblock();
+                self.end_state_branch(branch);
                 let res = self.push_inst(Instruction::Phi(t, e));
                 let phi_bidx = self.get_ctxdata().current_bb;
 
@@ -3107,7 +3139,7 @@ impl Context {
                     _ => panic!("the last block should be Jmp"),
                 }
 
-                (res, ty, [state_c, branch_state].concat())
+                (res, ty, [state_c, state_t, state_e].concat())
             }
             Expr::Match(scrutinee, arms) => {
                 // For now, implement match as a chain of if-else comparisons
@@ -3533,6 +3565,9 @@ impl Context {
             merge_block: 0,
         });
 
+        // Every arm gets its own state cells, one arm after the other.
+        let mut branch = self.begin_state_branch();
+
         // Generate blocks for each constructor pattern
         let (case_blocks, case_results, case_states): (Vec<_>, Vec<_>, Vec<_>) = tag_arms
             .iter()
@@ -3540,10 +3575,7 @@ impl Context {
                 self.add_new_basicblock();
                 let block_idx = self.get_ctxdata().current_bb as u64;
 
-                // Reset state offset at the start of each arm
-                // This ensures each arm starts with a clean state context
-                self.get_ctxdata().next_state_offset = None;
-                self.get_ctxdata().push_sum = 0;
+                self.begin_state_arm(&branch);
 
                 // Extract value from the tagged union if there's a binding pattern and payload type
                 if let MatchPattern::Constructor(_, Some(inner_pattern)) = &arm.pattern
@@ -3561,6 +3593,7 @@ impl Context {
                 }
 
                 let (result_val, _, arm_states) = self.eval_expr(arm.body);
+                self.end_state_arm(&mut branch, &arm_states);
                 ((*tag, block_idx), result_val, arm_states)
             })
             .fold(
@@ -3582,11 +3615,9 @@ impl Context {
             self.add_new_basicblock();
             let block_idx = self.get_ctxdata().current_bb as u64;
 
-            // Reset state offset for default arm
-            self.get_ctxdata().next_state_offset = None;
-            self.get_ctxdata().push_sum = 0;
-
+            self.begin_state_arm(&branch);
             let (result_val, _, arm_states) = self.eval_expr(arm.body);
+            self.end_state_arm(&mut branch, &arm_states);
             all_arm_states.push(arm_states);
             case_results.push(result_val);
             Some(block_idx)
@@ -3595,50 +3626,9 @@ impl Context {
             None
         };
 
-        // Calculate maximum state size across all arms
-        let arm_state_sizes: Vec<u64> = all_arm_states
-            .iter()
-            .map(|states| states.iter().map(|s| s.total_size()).sum::<u64>())
-            .collect();
-        let max_state_size = arm_state_sizes.iter().copied().max().unwrap_or(0);
-
-        // Insert PushStateOffset for arms with smaller state sizes
-        // This ensures all arms have the same state offset when merging
-        for (i, ((_tag, block_idx), state_size)) in
-            case_blocks.iter().zip(arm_state_sizes.iter()).enumerate()
-        {
-            if *state_size < max_state_size {
-                let offset = max_state_size - state_size;
-                let block = self
-                    .get_current_fn()
-                    .body
-                    .get_mut(*block_idx as usize)
-                    .unwrap();
-                // Insert PushStateOffset at the end of the block (before result)
-                block
-                    .0
-                    .push((Arc::new(Value::None), Instruction::PushStateOffset(offset)));
-            }
-        }
-
-        // Handle default block state adjustment if it exists
-        if let Some(default_idx) = default_block_idx {
-            let default_state_size = arm_state_sizes.last().copied().unwrap_or(0);
-            if default_state_size < max_state_size {
-                let offset = max_state_size - default_state_size;
-                let block = self
-                    .get_current_fn()
-                    .body
-                    .get_mut(default_idx as usize)
-                    .unwrap();
-                block
-                    .0
-                    .push((Arc::new(Value::None), Instruction::PushStateOffset(offset)));
-            }
-        }
-
         // Generate merge block with PhiSwitch
         self.add_new_basicblock();
+        self.end_state_branch(branch);
         let merge_block_idx = self.get_ctxdata().current_bb as u64;
         let res = self.push_inst(Instruction::PhiSwitch(case_results));
 
@@ -3666,9 +3656,7 @@ impl Context {
             _ => panic!("expected Switch instruction"),
         }
 
-        // Use the largest arm's state as the result state
-        // This represents the maximum state size across all branches
-        // But we need to collect all states from all arms for the function's state signature
+        // The state signature lists the cells of all arms, in the order they were evaluated.
         for arm_states in all_arm_states {
             states.extend(arm_states);
         }
@@ -3743,13 +3731,18 @@ impl Context {
             merge_block: 0,
         });
 
+        // Every arm gets its own state cells, one arm after the other.
+        let mut branch = self.begin_state_branch();
+
         // Generate blocks for each literal case
         let (case_blocks, case_results, case_states): (Vec<_>, Vec<_>, Vec<_>) = literal_arms
             .iter()
             .map(|(arm, lit_val)| {
                 self.add_new_basicblock();
                 let block_idx = self.get_ctxdata().current_bb as u64;
+                self.begin_state_arm(&branch);
                 let (result_val, _, arm_states) = self.eval_expr(arm.body);
+                self.end_state_arm(&mut branch, &arm_states);
                 ((*lit_val, block_idx), result_val, arm_states)
             })
             .fold(
@@ -3770,7 +3763,9 @@ impl Context {
             // Wildcard pattern - just evaluate the body
             self.add_new_basicblock();
             let block_idx = self.get_ctxdata().current_bb as u64;
+            self.begin_state_arm(&branch);
             let (result_val, _, arm_states) = self.eval_expr(arm.body);
+            self.end_state_arm(&mut branch, &arm_states);
             all_states.extend(arm_states);
             case_results.push(result_val);
             Some(block_idx)
@@ -3781,6 +3776,7 @@ impl Context {
 
         // Generate merge block with PhiSwitch
         self.add_new_basicblock();
+        self.end_state_branch(branch);
         let merge_block_idx = self.get_ctxdata().current_bb as u64;
         let res = self.push_inst(Instruction::PhiSwitch(case_results));
 
@@ -4245,12 +4241,16 @@ impl Context {
                 let mut case_blocks: Vec<(i64, u64)> = Vec::new();
                 let mut case_results: Vec<VPtr> = Vec::new();
                 let mut all_states: Vec<StateSkeleton> = Vec::new();
+                // Every case gets its own state cells, one case after the other.
+                let mut branch = self.begin_state_branch();
 
                 for (val, subtree) in cases {
                     self.add_new_basicblock();
                     let block_idx = self.get_ctxdata().current_bb as u64;
+                    self.begin_state_arm(&branch);
                     let (result, states) =
                         self.compile_decision_tree(subtree, tuple_val, tuple_ty, elem_types);
+                    self.end_state_arm(&mut branch, &states);
                     case_blocks.push((*val, block_idx));
                     case_results.push(result);
                     all_states.extend(states);
@@ -4260,8 +4260,10 @@ impl Context {
                 let default_block_idx = if let Some(default_tree) = default {
                     self.add_new_basicblock();
                     let block_idx = self.get_ctxdata().current_bb as u64;
+                    self.begin_state_arm(&branch);
                     let (result, states) =
                         self.compile_decision_tree(default_tree, tuple_val, tuple_ty, elem_types);
+                    self.end_state_arm(&mut branch, &states);
                     case_results.push(result);
                     all_states.extend(states);
                     Some(block_idx)
@@ -4271,6 +4273,7 @@ impl Context {
 
                 // Generate merge block
                 self.add_new_basicblock();
+                self.end_state_branch(branch);
                 let merge_block_idx = self.get_ctxdata().current_bb as u64;
                 let res = self.push_inst(Instruction::PhiSwitch(case_results));
 
